@@ -414,12 +414,16 @@ class Check:
             "notes": self.notes,
         }
         cov.update(self.extra_cov)
+        if not self.discharged:
+            # a run whose proofs did not build discharges nothing: report it under another key so
+            # that the evidence stays valid (generic counts) instead of claiming a proof
+            cov["discharged_count"] = cov.pop("discharged")
         ev = {
             "property_id": self.prop, "tier": self.tier, "seed": self.seed, "level": "proof",
             "coverage": cov, "assumptions": self.assumptions,
             "wall_s": round(time.time() - self.t0, 2), "violations": nviol,
         }
-        d = os.path.join(ROOT, "evidence")
+        d = os.environ.get("VERIF_EVIDENCE_DIR") or os.path.join(ROOT, "evidence")
         os.makedirs(d, exist_ok=True)
         tmp = os.path.join(d, f".{self.prop}.json.tmp")
         json.dump(ev, open(tmp, "w"), indent=1, default=str)
